@@ -8,7 +8,7 @@
                  is an ordinary wake event that follows at any later point.
    begin w     = worker closure w enters `state.execute()` (first iteration, or `continue`).
    exec_done w r = execute() returned in worker w: r = XDone (Ready(Ok): profile put, returns true),
-                 XErr (Ready(Err): errors.set_error(e), returns FALSE), XPend (Pending: false).
+                 XErr (Ready(Err): errors.set_error(e), returns true since baf9ea120), XPend (Pending: false).
    end w       = the critical section after execute(): `completed = r; if pending {pending = false;
                  if completed {break} /*else continue*/} else {running = false; break}`.
 
@@ -18,7 +18,9 @@ From Coq Require Import List Arith Bool.
 Import ListNotations.
 
 Inductive xres := XDone | XErr | XPend.
-Definition xres_completed (r : xres) : bool := match r with XDone => true | _ => false end.
+(* what execute() returns: since commit baf9ea120 the Ready(Err) arm returns true as well (a failed
+   pipeline is done); before it returned false *)
+Definition xres_completed (r : xres) : bool := match r with XDone | XErr => true | XPend => false end.
 
 Inductive wphase :=
 | WSpawned                 (* closure handed to the pool, not yet running *)
